@@ -17,7 +17,7 @@ ASSUMPTIONS = [
     'TTL in the same datagram',
     'lazily parsed answers are modelled as already present in DNSIncoming._answers (the parser is C02)',
 ]
-EVT = 'tuple[int, RecordUpdateListener, list[RecordUpdate]]'
+EVT = 'tuple[int, RecordUpdateListener, int]'     # (kind, listener, id of the pair-list value: ghost lid(list))
 
 
 def _log_event(kind):
@@ -28,10 +28,11 @@ def _log_event(kind):
         et = fs.t.args[0]
         if kind == 1:
             recs = args[2]
-            lst = ex.term(recs, st)
+            lt_ = ex.term(recs, st)
+            lid = z3.Function('ghost_lid', lt_.sort(), z3.IntSort())
+            lst = lid(lt_)
         else:
-            lt = et.args[2]
-            lst = lt.mk(z3.IntVal(0), fresh('noargs', z3.ArraySort(z3.IntSort(), Ref)))
+            lst = z3.IntVal(0)
         ex.l_append(ev, Sc(et.mk(z3.IntVal(kind), recv.term, lst), et), st)
         # frame of a callback (T7): it may add/remove listeners on any record manager
         fl = ex.ctx.shapes.field('RecordManager', 'listeners')
@@ -69,7 +70,7 @@ def install(R):
                ensures=['len(LOG.events) == old(len(LOG.events)) + old(card(self.listeners))',
                         'forall("p:int", lambda p: implies(0 <= p and p < old(len(LOG.events)), LOG.events[p] == old(LOG.events[p])))',
                         'forall("p:int", lambda p: implies(old(len(LOG.events)) <= p and p < len(LOG.events), '
-                        '   LOG.events[p][0] == 1 and old(self.listeners).has(LOG.events[p][1]) and list_eq(LOG.events[p][2], records)))',
+                        '   LOG.events[p][0] == 1 and old(self.listeners).has(LOG.events[p][1]) and LOG.events[p][2] == uf("lid", records)))',
                         'forall("p:int, q:int", lambda p, q: implies(old(len(LOG.events)) <= p and p < q and q < len(LOG.events), '
                         '   LOG.events[p][1] is not LOG.events[q][1]))',
                         called],
@@ -77,7 +78,7 @@ def install(R):
                                    'len(LOG.events) == old(len(LOG.events)) + _k',
                                    'forall("p:int", lambda p: implies(0 <= p and p < old(len(LOG.events)), LOG.events[p] == old(LOG.events[p])))',
                                    'forall("p:int", lambda p: implies(old(len(LOG.events)) <= p and p < len(LOG.events), '
-                                   '   LOG.events[p][0] == 1 and LOG.events[p][1] is _it[p - old(len(LOG.events))] and list_eq(LOG.events[p][2], records)))'])})
+                                   '   LOG.events[p][0] == 1 and LOG.events[p][1] is _it[p - old(len(LOG.events))] and LOG.events[p][2] == uf("lid", records)))'])})
     R.contract('zeroconf._handlers.record_manager', 'RecordManager.async_updates_complete', PROP,
                params={'notify': 'bool'},
                modifies=['LOG.events', 'RecordManager.listeners[*]'],
@@ -224,6 +225,23 @@ def install_response(R):
         'forall("i:ident", lambda i: implies(not occ(%s, %s, i), in_cache(%s, i) == old(in_cache(%s, i))))' % (A, n, C, C),
         'forall("i:ident", lambda i: implies(not occ(%s, %s, i) and in_cache(%s, i), cached(%s, i) is old(cached(%s, i))))' % (A, n, C, C, C),
     ]
+    L0 = 'old(len(LOG.events))'
+    log_facts = [
+        'implies(len(updates) == 0, len(LOG.events) == %s)' % L0,
+        'forall("p:int", lambda p: implies(0 <= p and p < %s, LOG.events[p] == old(LOG.events[p])))' % L0,
+        # first group: every listener registered on arrival, exactly once, with the pair list
+        'implies(len(updates) > 0, len(LOG.events) >= %s + old(card(self.listeners)))' % L0,
+        'implies(len(updates) > 0, forall("p:int", lambda p: implies(%s <= p and p < %s + old(card(self.listeners)), '
+        '   LOG.events[p][0] == 1 and old(self.listeners).has(LOG.events[p][1]) and LOG.events[p][2] == uf("lid", updates))))' % (L0, L0),
+        'implies(len(updates) > 0, forall("p:int, q:int", lambda p, q: implies(%s <= p and p < q and q < %s + old(card(self.listeners)), '
+        '   LOG.events[p][1] is not LOG.events[q][1])))' % (L0, L0),
+        'implies(len(updates) > 0, forall("l:RecordUpdateListener", lambda l: implies(old(self.listeners).has(l), '
+        '   exists("p:int", lambda p: %s <= p and p < %s + old(card(self.listeners)) and LOG.events[p][1] is l))))' % (L0, L0),
+        # second group: completion calls only, each listener at most once
+        'forall("p:int", lambda p: implies(%s + old(card(self.listeners)) <= p and p < len(LOG.events), LOG.events[p][0] == 2))' % L0,
+        'forall("p:int, q:int", lambda p, q: implies(%s + old(card(self.listeners)) <= p and p < q and q < len(LOG.events), '
+        '   LOG.events[p][1] is not LOG.events[q][1]))' % L0,
+    ]
     views = [
         View('heap', loops={0: Loop(inv=base + heap_facts('_k'), modifies=LM)}, ensures=[], only_loops=True),
         View('pairs', loops={0: Loop(inv=base + upd('_k'), assume_only=heap_facts('_k'), modifies=LM)},
@@ -232,7 +250,23 @@ def install_response(R):
         View('sets', loops={0: Loop(inv=base + inv_sets, assume_only=heap_facts('_k'), modifies=LM)}, ensures=[], only_loops=True),
         # every invariant above is inductive on its own; here they are only assumed and combined after the loop
         View('final', loops={0: Loop(inv=[], assume_only=base + upd('_k') + heap_facts('_k') + inv_adds + inv_sets,
-                                     modifies=LM)}, ensures=final),
+                                     modifies=LM)}, ensures=final + log_facts,
+             at_calls={
+                 # listeners are told BEFORE anything is added to / removed from the cache ...
+                 'async_updates': [
+                     'forall("i:ident", lambda i: in_cache(%s, i) == old(in_cache(%s, i)))' % (C, C),
+                     'forall("i:ident", lambda i: implies(in_cache(%s, i), cached(%s, i) is old(cached(%s, i))))' % (C, C, C),
+                     # ... but refreshed TTLs are already visible
+                     'forall("i:ident", lambda i: implies(in_cache(%s, i) and live_occ(%s, %s, i), cached(%s, i).created == msg.now))' % (C, A, n, C),
+                     'len(updates) > 0'],
+                 # ... and told again only when every add and every removal has happened
+                 'async_updates_complete': [
+                     'forall("j:int", lambda j: implies(0 <= j and j < %s and old(%s[j].ttl) != 0, in_cache(%s, ident(%s[j]))))' % (n, A, C, A),
+                     'forall("j:int", lambda j: implies(0 <= j and j < %s and old(%s[j].ttl) == 0, not in_cache(%s, ident(%s[j]))))' % (n, A, C, A),
+                     'len(updates) > 0',
+                     'len(LOG.events) == %s + old(card(self.listeners))' % L0,
+                     'forall("p:int", lambda p: implies(%s <= p and p < len(LOG.events), LOG.events[p][0] == 1))' % L0],
+             }),
     ]
     R.contract('zeroconf._handlers.record_manager', 'RecordManager.async_updates_from_response', PROP,
                params={'msg': 'DNSIncoming'}, requires=pre,
